@@ -307,11 +307,6 @@ impl Iterator for ClosestBucketsIter {
                 if let Some(i) = self.next_in(i) {
                     self.state = ClosestBucketsIterState::ZoomIn(i);
                     Some(i)
-                } else if i.get() == 0 {
-                    // Bucket `0` has just been yielded (as the start bucket or as the last
-                    // zoom-in step): do not yield it a second time.
-                    self.state = ClosestBucketsIterState::ZoomOut(i);
-                    self.next()
                 } else {
                     let i = BucketIndex(0);
                     self.state = ClosestBucketsIterState::ZoomOut(i);
